@@ -489,6 +489,17 @@ def run_both(loader, content, params):
     os.makedirs(TMPDIR, exist_ok=True)
     _counter[0] += 1
     path = os.path.join(TMPDIR, "%d_%d.txt" % (os.getpid(), _counter[0]))
+    # the path has a history: it held another annotation (the same lines in reverse order, or one made-up row), which was
+    # loaded, and is then REWRITTEN with `content` - what a user does who regenerates an annotation file between two
+    # loads; a loader may depend on what the file holds now, never on what it held under that name before
+    lines = content.splitlines(keepends=True)
+    earlier = "".join(reversed(lines)) if len(lines) > 1 else content + "0.5\t1.5\tearlier\n"
+    with open(path, "w", encoding="utf-8", newline="") as fh:
+        fh.write(earlier)
+    try:
+        run_one(loader, path, params, path)
+    except Exception:  # noqa: BLE001 - only has to have happened
+        pass
     with open(path, "w", encoding="utf-8", newline="") as fh:
         fh.write(content)
     try:
